@@ -33,7 +33,10 @@ struct vf_shared {
 	char		slot[VF_MAX_WORKERS + 1][VF_SLOT_LEN];
 	char		slot_prop[VF_MAX_WORKERS + 1][16];
 	atomic_long	slot_item[VF_MAX_WORKERS + 1];
-	atomic_long	heartbeat[VF_MAX_WORKERS + 1];	/* bumped by vf_slot()/vf_heartbeat(); a worker that stops bumping is hung */
+	/* one cache line per worker, written by its owner only (relaxed): heartbeat is bumped by vf_slot()/vf_heartbeat()/
+	 * vf_lib_enter()/vf_lib_leave(), a worker that stops bumping is stalled; in_lib says where:
+	 * 0 harness never says, 1 inside a library call, 2 in harness / reference-model code */
+	struct { _Alignas (64) atomic_long heartbeat; atomic_int in_lib; } wk[VF_MAX_WORKERS + 1];
 };
 
 static struct vf_shared	*S;
@@ -185,8 +188,11 @@ void vf_note (const char *fmt, ...)
 	va_end (ap);
 }
 
-char *vf_slot (void) { atomic_fetch_add (&S->heartbeat[g_me], 1); return S->slot[g_me]; }
-void vf_heartbeat (void) { atomic_fetch_add (&S->heartbeat[g_me], 1); }
+static inline void bump (void) { atomic_store_explicit (&S->wk[g_me].heartbeat, atomic_load_explicit (&S->wk[g_me].heartbeat, memory_order_relaxed) + 1, memory_order_relaxed); }
+char *vf_slot (void) { bump (); return S->slot[g_me]; }
+void vf_heartbeat (void) { bump (); }
+void vf_lib_enter (void) { atomic_store_explicit (&S->wk[g_me].in_lib, 1, memory_order_relaxed); bump (); }
+void vf_lib_leave (void) { atomic_store_explicit (&S->wk[g_me].in_lib, 2, memory_order_relaxed); bump (); }
 void vf_slot_set_prop (const char *prop) { snprintf (S->slot_prop[g_me], 16, "%s", prop); }
 
 /* ---- ASan report parsing ------------------------------------------------------- */
@@ -243,6 +249,7 @@ static void worker_main (int me, long nitems, vf_item_fn fn, void *arg, int item
 		it = atomic_fetch_add (&S->next_item, 1);
 		if (it >= nitems) break;
 		atomic_store (&S->slot_item[me], it);
+		atomic_store (&S->wk[me].in_lib, 0);
 		S->slot[me][0] = 0;
 		if (item_timeout_s > 0) alarm ((unsigned) item_timeout_s);
 		fn (it, arg);
@@ -281,7 +288,7 @@ void vf_pool_run (long nitems, vf_item_fn fn, void *arg, int item_timeout_s)
 			for (i = 0; i < nw; i++) {
 				long hb;
 				if (pids[i] <= 0) continue;
-				hb = atomic_load (&S->heartbeat[i]);
+				hb = atomic_load (&S->wk[i].heartbeat);
 				if (hb != last_hb[i]) { last_hb[i] = hb; last_t[i] = t; }
 				else if (t - last_t[i] > stall_s && !hung[i]) { hung[i] = 1; kill (pids[i], SIGKILL); }
 			}
@@ -296,6 +303,12 @@ void vf_pool_run (long nitems, vf_item_fn fn, void *arg, int item_timeout_s)
 		if (hung[i]) {
 			long it = atomic_load (&S->slot_item[i]);
 			hung[i] = 0; last_hb[i] = -1; last_t[i] = now_s ();
+			if (atomic_load (&S->wk[i].in_lib) == 2) {
+				/* the worker was in harness / reference-model code, not in the library: a slow oracle is the machinery's
+				 * problem and says nothing about the property */
+				vf_incomplete ("MACHINERY: item %ld abandoned: %.0f s without progress in harness code (not inside a library call); last case: %.150s", it, stall_s, S->slot[i]);
+				goto restart_worker;
+			}
 			vf_viol (S->slot_prop[i][0] ? S->slot_prop[i] : (g_prop[0] ? g_prop : "C00"), "kind=hang", "%s", S->slot[i][0] ? S->slot[i] : "(no case recorded)");
 			vf_incomplete ("item %ld aborted: no progress for %.0f s (hang); last case: %.150s", it, stall_s, S->slot[i]);
 			goto restart_worker;
